@@ -54,6 +54,8 @@ type pwPath struct {
 	unknown   map[string]bool                                 // objects overwritten as a whole by a value that is not tracked
 	loadAt    map[ssa.Value]int                               // load -> number of events recorded when it (last) executed
 	marks     []pwMark                                        // every re-entry of a block on this path
+	// deferSpans: [from, to) ranges of events that happened while a deferred call ran at a function's exit
+	deferSpans [][2]int
 }
 
 // pwMark: a block was entered again (a loop went round) when the path had this many decisions and events.
@@ -160,6 +162,16 @@ type pwFrame struct {
 	// extracted helper with different arguments); maps the function's own values to the copies,
 	// its parameters and free variables to what they are bound to. nil for a first activation.
 	sub map[ssa.Value]ssa.Value
+	// deferRun: the activation is a deferred call run at its caller's exit; deferStart: number of events when it began
+	deferRun   bool
+	deferStart int
+}
+
+// pwDeferRec: a defer registered by an activation (identified by its depth and function).
+type pwDeferRec struct {
+	depth int
+	fn    *ssa.Function
+	d     *ssa.Defer
 }
 
 // pwOrigin: copy of an instruction -> the instruction of the program it was made from
@@ -295,6 +307,7 @@ type pwState struct {
 	exiting   *ssa.BasicBlock         // loop header being left (second arrival)
 	arrived   map[*ssa.BasicBlock]int // number of decisions at the latest arrival at a block
 	arrivedEv map[*ssa.BasicBlock]int // number of events at the latest arrival at a block
+	defers    []pwDeferRec            // defers registered and not yet run
 }
 
 type pathWalker struct {
@@ -307,7 +320,8 @@ type pathWalker struct {
 	maxDepth int
 	paths    []*pwPath
 	overflow bool
-	noTables bool // do not resolve lookups in constant tables (used while the tables themselves are built)
+	runDefers bool // run the deferred calls of an activation at its exit (closures and functions the inline policy accepts)
+	noTables  bool // do not resolve lookups in constant tables (used while the tables themselves are built)
 	// stopCall: the path ends (end == "stop") at this call, which is recorded as its last event
 	stopCall func(p *pwPath, frameFn *ssa.Function, c *ssa.Call) bool
 }
@@ -329,6 +343,7 @@ func (p *pwPath) clone() *pwPath {
 		q.unknown[k] = v
 	}
 	q.marks = append([]pwMark(nil), p.marks...)
+	q.deferSpans = append([][2]int(nil), p.deferSpans...)
 	q.decisions = append([]pwDecision(nil), p.decisions...)
 	q.events = append([]ssa.Instruction(nil), p.events...)
 	q.evDecided = append([]int(nil), p.evDecided...)
@@ -359,6 +374,7 @@ func (s *pwState) clone() *pwState {
 	t := *s
 	t.p = s.p.clone()
 	t.frame = s.frame.cloneChain()
+	t.defers = append([]pwDeferRec(nil), s.defers...)
 	t.decided = make(map[ssa.Value]bool, len(s.decided))
 	for k, v := range s.decided {
 		t.decided[k] = v
@@ -794,13 +810,23 @@ func (pw *pathWalker) run(s *pwState) []*pwState {
 			case *ssa.Phi, *ssa.DebugRef:
 			case *ssa.Call:
 				callee := x.Call.StaticCallee()
+				boundWrapper := false
+				if callee == nil && !x.Call.IsInvoke() {
+					// a call of a function value that this path knows to be a particular closure
+					if mc, ok := s.p.resolve(x.Call.Value).(*ssa.MakeClosure); ok {
+						if f, ok := mc.Fn.(*ssa.Function); ok {
+							callee = f
+							boundWrapper = strings.HasPrefix(f.Synthetic, "bound method wrapper")
+						}
+					}
+				}
 				onStack := false
 				for fr := s.frame; fr != nil; fr = fr.parent {
 					if fr.fn == callee {
 						onStack = true
 					}
 				}
-				if callee != nil && len(callee.Blocks) > 0 && s.frame.depth < pw.maxDepth && !onStack && pw.inline != nil && pw.inline(s.frame.fn, callee) && len(callee.Params) == len(x.Call.Args) {
+				if callee != nil && len(callee.Blocks) > 0 && s.frame.depth < pw.maxDepth && !onStack && pw.inline != nil && (boundWrapper || pw.inline(s.frame.fn, callee)) && len(callee.Params) == len(x.Call.Args) {
 					nf := &pwFrame{fn: callee, call: x, parent: s.frame, retBlock: b, retIdx: s.idx, depth: s.frame.depth + 1}
 					bind := s.p.alias
 					if s.inlined[callee] {
@@ -926,7 +952,62 @@ func (pw *pathWalker) run(s *pwState) []*pwState {
 				}
 				s.p.events = append(s.p.events, ins)
 				s.p.evDecided = append(s.p.evDecided, len(s.p.decisions))
-			case *ssa.MapUpdate, *ssa.Defer, *ssa.Go, *ssa.Send, *ssa.IndexAddr, *ssa.Index, *ssa.Slice:
+			case *ssa.Defer:
+				s.p.events = append(s.p.events, ins)
+				s.p.evDecided = append(s.p.evDecided, len(s.p.decisions))
+				if pw.runDefers {
+					s.defers = append(s.defers[:len(s.defers):len(s.defers)], pwDeferRec{s.frame.depth, s.frame.fn, x})
+				}
+			case *ssa.RunDefers:
+				if pw.runDefers {
+					// the most recent defer of this activation that has not run yet
+					at := -1
+					for i := len(s.defers) - 1; i >= 0; i-- {
+						if s.defers[i].depth == s.frame.depth && s.defers[i].fn == s.frame.fn {
+							at = i
+							break
+						}
+					}
+					if at >= 0 {
+						d := s.defers[at].d
+						s.defers = append(append([]pwDeferRec(nil), s.defers[:at]...), s.defers[at+1:]...)
+						callee := d.Call.StaticCallee()
+						isClosure := false
+						if mc, ok := s.p.resolve(d.Call.Value).(*ssa.MakeClosure); ok {
+							if f, ok := mc.Fn.(*ssa.Function); ok {
+								callee, isClosure = f, true
+							}
+						}
+						if callee != nil && len(callee.Blocks) > 0 && s.frame.depth < pw.maxDepth+2 && len(callee.Params) == len(d.Call.Args) && (isClosure || (pw.inline != nil && pw.inline(s.frame.fn, callee))) {
+							nf := &pwFrame{fn: callee, call: d, parent: s.frame, retBlock: b, retIdx: s.idx - 1, depth: s.frame.depth + 1, deferRun: true, deferStart: len(s.p.events)}
+							bind := s.p.alias
+							if s.inlined[callee] {
+								for _, cb := range callee.Blocks {
+									delete(s.visits, cb)
+									delete(s.arrived, cb)
+									delete(s.arrivedEv, cb)
+								}
+								nf.sub = map[ssa.Value]ssa.Value{}
+								bind = nf.sub
+							}
+							for i, prm := range callee.Params {
+								bind[prm] = s.p.resolve(d.Call.Args[i])
+							}
+							if mc, ok := s.p.resolve(d.Call.Value).(*ssa.MakeClosure); ok && len(mc.Bindings) == len(callee.FreeVars) {
+								for i, fv := range callee.FreeVars {
+									bind[fv] = s.p.resolve(mc.Bindings[i])
+								}
+							}
+							s.inlined[callee] = true
+							s.frame = nf
+							s.block, s.pred, s.idx = callee.Blocks[0], nil, 0
+							goto nextBlock
+						}
+						// not walked: the next one (this instruction is executed again)
+						s.idx--
+					}
+				}
+			case *ssa.MapUpdate, *ssa.Go, *ssa.Send, *ssa.IndexAddr, *ssa.Index, *ssa.Slice:
 				s.p.events = append(s.p.events, ins)
 				s.p.evDecided = append(s.p.evDecided, len(s.p.decisions))
 			case *ssa.Return:
@@ -939,6 +1020,9 @@ func (pw *pathWalker) run(s *pwState) []*pwState {
 					res = append(res, s.p.resolve(r))
 				}
 				fr := s.frame
+				if fr.deferRun {
+					s.p.deferSpans = append(s.p.deferSpans, [2]int{fr.deferStart, len(s.p.events)})
+				}
 				if cv, ok := fr.call.(*ssa.Call); ok {
 					if len(res) == 1 {
 						s.p.alias[cv] = res[0]
